@@ -169,7 +169,8 @@ def eval_program(arg) -> dict:
     # clang++-14, C++17 and C++20, rotated over the programs (both compilers in the thorough tier)
     compilers = ['plain', 'clang'] if tier == 'thorough' else [['plain', 'clang'][stream % 2]]
     cxxlab.EXTRA_FLAGS[:] = ['-std=c++20'] if (stream // 2) % 2 else []
-    cnt[f'compiled_with_{compilers[-1]}'] = 1
+    for flavor in compilers:
+        cnt[f'compiled_with_{flavor}'] = 1
     cnt['compiled_as_' + ('c++20' if cxxlab.EXTRA_FLAGS else 'c++17')] = 1
 
     def viol(shape, stderr, **detail):
